@@ -157,6 +157,11 @@ STAGES = {
                                                 POLICIES='{"mandatory"}', STARTTLSADV='{TRUE}',
                                                 AUTHTYPES='{"PLAIN", "LOGIN", "SCRAM-SHA-256-PLUS", "SCRAM-SHA-1-PLUS", "AUTODISCOVER"}',
                                                 AUTHLISTS='{{"PLAIN", "LOGIN", "CRAM-MD5", "XOAUTH2", "SCRAM-SHA-1", "SCRAM-SHA-256", "SCRAM-SHA-1-PLUS", "SCRAM-SHA-256-PLUS"}}', LOGAUTH='BOOLEAN', LOGGERS='{"capture", "json"}')),
+            # logger, debug flag and the authentication-data switch through SetLogger / SetDebugLog / SetLogAuthData
+            ('dial-auth-by-setters', 'Session', cfg(OP='"Dial"', N='1', MAXR='1', BUDGET='1', CAPSETS='{{}}', CLASSES='{"p5", "mal"}', VARIANTS='{"setters"}',
+                                                    POLICIES='{"mandatory", "none"}', STARTTLSADV='{TRUE}',
+                                                    AUTHTYPES='{"PLAIN-NOENC", "LOGIN-NOENC", "CRAM-MD5", "XOAUTH2", "SCRAM-SHA-256", "AUTODISCOVER"}',
+                                                    AUTHLISTS='{{"PLAIN", "LOGIN", "CRAM-MD5", "XOAUTH2", "SCRAM-SHA-1", "SCRAM-SHA-256", "SCRAM-SHA-1-PLUS", "SCRAM-SHA-256-PLUS"}}', LOGAUTH='BOOLEAN', LOGGERS='{"capture", "std", "json"}')),
             # smtp.Client.Close called by another goroutine between two commands of the exchange
             ('rawauth-concurrent-close', 'Session', cfg(OP='"RawAuth"', N='1', MAXR='1', BUDGET='1', CAPSETS='{{}}', CLASSES='{"xclose"}',
                                           AUTHTYPES='{"PLAIN-NOENC", "LOGIN-NOENC", "CRAM-MD5", "XOAUTH2", "SCRAM-SHA-1", "SCRAM-SHA-256"}',
@@ -211,6 +216,16 @@ STAGES = {
             ('ssl-flag-with-plain-dialer', 'Session', cfg(OP='"Dial"', N='1', MAXR='1', BUDGET='0', CAPSETS='{{}}', VARIANTS='{"sslflag"}',
                 POLICIES='{"none"}', HOSTKINDS='{"localhost", "other"}', AUTHTYPES='{"AUTODISCOVER", "PLAIN", "LOGIN", "CRAM-MD5"}',
                 AUTHLISTS='{{"PLAIN", "LOGIN"}, {"PLAIN", "LOGIN", "CRAM-MD5"}}')),
+            # the whole configuration through the setter methods of the Client (SetTLSPolicy, SetSMTPAuth, SetUsername, ...) instead of options
+            ('configured-by-setters', 'Session', cfg(OP='"Dial"', N='1', MAXR='1', BUDGET='0', CAPSETS='{{}}', VARIANTS='{"setters"}',
+                POLICIES='{"mandatory", "opportunistic", "none"}', STARTTLSADV='BOOLEAN', HOSTKINDS='{"localhost", "other"}', HANDSHAKES='{"ok", "untrusted"}',
+                AUTHTYPES='{"NOAUTH", "PLAIN", "PLAIN-NOENC", "LOGIN", "CRAM-MD5", "XOAUTH2", "SCRAM-SHA-256", "SCRAM-SHA-256-PLUS", "AUTODISCOVER"}',
+                AUTHLISTS='{{}, {"PLAIN", "LOGIN"}, {"PLAIN", "LOGIN", "CRAM-MD5", "XOAUTH2", "SCRAM-SHA-1", "SCRAM-SHA-256", "SCRAM-SHA-1-PLUS", "SCRAM-SHA-256-PLUS"}}')),
+            ('implicit-tls-by-setters', 'Session', cfg(OP='"Dial"', N='1', MAXR='1', BUDGET='1', CAPSETS='{{}}', CLASSES='{"refuse"}', VARIANTS='{"setters"}',
+                POLICIES='{"implicit"}', FALLBACK='BOOLEAN', HANDSHAKES='{"ok", "untrusted"}', STARTTLSADV='{TRUE}',
+                AUTHTYPES='{"NOAUTH", "PLAIN", "AUTODISCOVER"}', AUTHLISTS='{{"PLAIN", "LOGIN"}}')),
+            ('port-policy-by-setters', 'Session', cfg(OP='"DialAndSend"', N='1', MAXR='1', BUDGET='1', CAPSETS='{{}}', CLASSES='{"refuse", "p5"}', VARIANTS='{"setters"}',
+                POLICIES='{"mandatory", "opportunistic", "none"}', FALLBACK='{TRUE}', STARTTLSADV='BOOLEAN', HANDSHAKES='{"ok"}')),
             # the TLS policy is changed between two dials of the same Client
             ('policy-change-redial', 'Session', cfg(OP='"Send"', N='1', MAXR='1', BUDGET='1', CAPSETS='{{}}', CLASSES='{"p5"}', REDIAL='{TRUE}',
                 POLICIES='{"mandatory", "opportunistic", "none"}', STARTTLSADV='BOOLEAN', HANDSHAKES='{"ok", "untrusted"}')),
